@@ -251,7 +251,9 @@ def batches(draw, nprog, nconf):
         text = M.render(sk["prog"])
         for j in range(draw(st.integers(6, 12))):
             items.append({"text": text, "inputs": M.enc_inputs(draw(_inputs(sk["prog"], sk["classes"], iv))), "multi": _multi(sk["prog"])})
-            if j % 3 == 0:
+            if j % 3 == 0 and all(isinstance(v, (str, int, float, bool, type(None))) for v in M.dec_inputs(items[-1]["inputs"]).values()):
+                # (positional binding may hand a condition field's value to a splitter: only values of the property's own
+                # domain, whose str() is the same in every process - a set's is not)
                 items.append(dict(items[-1], positional=True))
     for text in SHORT_TEXTS:
         for u in range(4):
@@ -303,8 +305,13 @@ def _decoys(d, texts):
     return made
 
 
+def _scalar_only(enc_inputs):
+    return all(isinstance(v, (str, int, float, bool, type(None))) for v in M.dec_inputs(enc_inputs).values())
+
+
 def judge_batch(case):
-    items = case["batch"]
+    # positional calls are judged only for values of the property's own domain (see batches())
+    items = [dict(it, positional=bool(it.get("positional")) and _scalar_only(it["inputs"])) for it in case["batch"]]
     viol = []
     # parent observations (this process)
     evs = {}
